@@ -20,11 +20,14 @@ from common import coq, with_watchdog, coq_eval
 
 PID = "C12"
 LEVEL_TEXT = ("Machine-checked proof (Coq, closed under the global context) over the dispatch ladder of "
-              "Transport.run and the handler tables / MSG_NAMES regenerated from the source on every run: in each "
-              "of the 32 post-handshake states every type 0..255 without a handler is answered with UNIMPLEMENTED "
-              "carrying the packet's sequence number and the loop keeps running, for streams of any length; an "
-              "inbound UNIMPLEMENTED is never answered; exhaustive sweep of all unhandled types on real loopback "
-              "transport pairs (both roles, before/after auth, both transport classes) compared with the model.")
+              "Transport.run (preceded by Packetizer.read_message's logging stage) and the handler tables / "
+              "MSG_NAMES / loop prelude / kex range / lookup and send-primitive forms regenerated from the source on "
+              "every run: in each of the 64 post-handshake states (incl. own re-key in progress) every type 0..255 "
+              "without a handler is answered with UNIMPLEMENTED carrying the packet's sequence number and the loop "
+              "keeps running, for streams of any length; an inbound UNIMPLEMENTED is never answered; exhaustive "
+              "sweep of all unhandled types on real loopback transport pairs (both roles, before/after auth, both "
+              "transport classes, hexdump/DEBUG logging on and off, during an in-progress re-key) compared with "
+              "the model.")
 LEVEL_NOTE = ("Trusted: Coq kernel + vm_compute; the hand-written order of the ladder in coq/Model/C12.v (special "
               "types, _handler_table, _channel_handler_table, auth handler table, fallback), validated by the "
               "exhaustive sweep; handlers of handled types are outside the model; gen/c12.py (live objects + AST "
@@ -200,7 +203,9 @@ def _host_key():
 
 def live_unhandled(t):
     """Independent of the model: type numbers that no table of this live transport takes."""
-    handled = {1, 2, 4} | set(t._handler_table) | set(t._channel_handler_table)
+    from paramiko import common
+    handled = ({common.MSG_DISCONNECT, common.MSG_IGNORE, common.MSG_DEBUG} | set(t._handler_table)
+               | set(t._channel_handler_table))
     if t.auth_handler is not None:
         handled |= set(t.auth_handler._handler_table)
     return [p for p in range(256) if p not in handled]
@@ -565,6 +570,42 @@ def run_config(ctx, label, client_srt, auth, npay, cases_dispatch, cases_stream,
         pair.close()
 
 
+def compare_with_model(ctx, cases_dispatch, cases_stream, model_sets):
+    if ctx.proof is not None and ctx.proof.model_ok:
+        uniq = []
+        for st, types in model_sets:
+            if st not in [u[0] for u in uniq]:
+                uniq.append((st, types))
+        # one coqc call: the unhandled sets of all swept states, separated by -1
+        expr = " ++ ".join("((-1) :: run_unhandled %s)" % coq(st) for st, _ in uniq) or "[]"
+        flat = coq_eval("From PV Require Import C12.", expr)
+        got_sets, cur = [], None
+        for x in flat:
+            if x == -1:
+                cur = []
+                got_sets.append(cur)
+            else:
+                cur.append(x)
+        for (st, types), got in zip(uniq, got_sets + [None] * len(uniq)):
+            ctx.count(("unhandled-set", st), nontrivial=True, kind="unhandled-set")
+            if got != types:
+                ctx.disagree("set of unhandled types differs between model and live handler tables",
+                             case={"state": list(st)}, model=got, impl=types)
+        # the hexdump configurations repeat model states already compared: quick tier compares every case whose
+        # outcome is not the plain reply, all re-key cases, and every 8th of the rest (the oracle saw them all)
+        sel = [c for k, c in enumerate(cases_dispatch)
+               if ctx.thorough or not c[2].get("hexdump") or c[0][4] or c[1][:2] != [1, 3] or k % 8 == 0]
+        bad = ctx.model_mismatches("run_dispatch", "(bool * bool * Z * bool * bool * Z * Z)",
+                                   [(coq(c), o) for c, o, _ in sel], shard=400)
+        for i in bad[:3]:
+            ctx.disagree("outcome for an unhandled type differs from the model", case=sel[i][2], impl=sel[i][1])
+        bad = ctx.model_mismatches("run_stream_case", "(bool * bool * Z * bool * bool * Z * list Z)",
+                                   [(coq(c), o) for c, o, _ in cases_stream])
+        for i in bad[:3]:
+            ctx.disagree("replies to a burst differ from the model", case=cases_stream[i][2],
+                         impl=cases_stream[i][1])
+
+
 def run(ctx):
     ctx.rule = ("exhaustive: for each of 5 loopback configurations (classic client, ServiceRequestingTransport "
                 "client, before authentication; classic and pre-auth again with packet hexdump + DEBUG logging "
@@ -596,28 +637,12 @@ def run(ctx):
             raise v
         if st == "hang":
             ctx.fail("sweep-hang", "the sweep did not finish (a blocking call never returned)", case={"config": label})
-    # ---- correspondence with the model ------------------------------------------------
-    if ctx.proof is not None and ctx.proof.model_ok:
-        seen = set()
-        for st, types in model_sets:
-            if st in seen:
-                continue
-            seen.add(st)
-            got = coq_eval("From PV Require Import C12.", "run_unhandled %s" % coq(st))
-            ctx.count(("unhandled-set", st), nontrivial=True, kind="unhandled-set")
-            if got != types:
-                ctx.disagree("set of unhandled types differs between model and live handler tables",
-                             case={"state": list(st)}, model=got, impl=types)
-        bad = ctx.model_mismatches("run_dispatch", "(bool * bool * Z * bool * bool * Z * Z)",
-                                   [(coq(c), o) for c, o, _ in cases_dispatch], shard=400)
-        for i in bad[:3]:
-            ctx.disagree("outcome for an unhandled type differs from the model", case=cases_dispatch[i][2],
-                         impl=cases_dispatch[i][1])
-        bad = ctx.model_mismatches("run_stream_case", "(bool * bool * Z * bool * bool * Z * list Z)",
-                                   [(coq(c), o) for c, o, _ in cases_stream])
-        for i in bad[:3]:
-            ctx.disagree("replies to a burst differ from the model", case=cases_stream[i][2],
-                         impl=cases_stream[i][1])
+    # ---- correspondence with the model (guarded: a translator / build failure must not hide the oracle) ----
+    try:
+        compare_with_model(ctx, cases_dispatch, cases_stream, model_sets)
+    except Exception as e:
+        ctx.corr_broken.append({"what": "model could not be evaluated (translator / build broken)",
+                                "error": str(e)[-600:]})
     if cases_dispatch:
         ctx.sample({"dispatch": {"case": cases_dispatch[0][2], "state+type+seq": list(cases_dispatch[0][0]),
                                  "impl": cases_dispatch[0][1]}})
